@@ -47,3 +47,4 @@ def run(ctx, R):
 
 
 META['level'] += ' PROPAGATE is also evaluated on the core classes whose update() the Dask mix-ins inherit.'
+META['level'] += ' DASK-REGISTRY ends-the-segment: gather is a core Stream, not a DaskStream.'
